@@ -201,13 +201,13 @@ def run(tier: str, only: dict | None = None) -> int:
     """`only` (replay): judge one recorded case again - {'kind': 'input', 'name', 'user'} or {'kind': 'output', 'name', 'req', 'family'}."""
     res = Result('C06', tier)
     calibrate = bool(os.environ.get('VERIF_C06_CALIBRATE')) and only is None
-    r = tlc.run_tlc('UnitTrack', 'MC_UnitTrack.cfg', workers=8, timeout=900)
+    r = tlc.run_tlc('UnitTrack', 'MC_UnitTrack.cfg', workers=8, timeout=2400)
     tlc.check_mc(r, 'MC_UnitTrack.cfg', ['ReadWithUnit', 'Use', 'ConvertBack', 'Echo'])
     if r['violated']:
         raise MachineryFailure(f'UnitTrack.tla violates {r["violated"]}')
     res.add_mc(r, 'MC_UnitTrack.cfg')
     if tier == 'thorough':
-        rp = tlc.run_tlc('UnitTrack', 'MC_UnitTrack_pinned.cfg', workers=8, timeout=900)
+        rp = tlc.run_tlc('UnitTrack', 'MC_UnitTrack_pinned.cfg', workers=8, timeout=2400)
         if rp['violated'] != 'C06_echo':
             raise MachineryFailure('UnitTrack: the failing-lookup design no longer violates C06_echo (vacuity guard)')
         res.cov['design_counterexample_echo'] = rp['trace'][-1]['vars'] if rp['trace'] else None
